@@ -252,7 +252,7 @@ fn cfg_strategy() -> impl Strategy<Value = (EngCfg, CollCfg)> {
         .prop_map(|(sparse_thr, par, created, metric, dim)| (EngCfg { sparse_thr, par }, CollCfg { created, metric, dim }))
 }
 
-/// Mixed histories over both collections: <= 40 ops, <= 8 default keys, <= 5 collection keys.
+/// Mixed histories over both collections: <= 40 ops, 7 ordinary + 2 unusual default keys, 5 collection keys.
 pub fn ops_strategy(_t: Tier) -> impl Strategy<Value = Case> {
     (0u8..3, cfg_strategy()).prop_flat_map(|(main, (cfg, coll))| {
         // the collection's fixed dimension, when set, is mostly the main dimension
